@@ -228,6 +228,8 @@ func runC20(c *an.Ctx) {
 
 // cadence: trigger + period + half-width < window.
 func cadence(c *an.Ctx) {
+	acceptanceWindow(c)
+
 	p := c.P
 	// the rotation function: adds 2016 to the window offset
 	var rotation *ssa.Function
